@@ -299,7 +299,13 @@ func (t *ImmutableTree) IterateRangeInclusive(start, end []byte, ascending bool,
 	}
 	return t.root.traverseInRange(t, start, end, ascending, true, false, func(node *Node) bool {
 		if node.subtreeHeight == 0 {
-			return fn(node.key, node.value, node.nodeKey.version)
+			// a leaf of the working tree that has not been committed yet has no node key: it belongs
+			// to the version being built
+			version := t.version + 1
+			if node.nodeKey != nil {
+				version = node.nodeKey.version
+			}
+			return fn(node.key, node.value, version)
 		}
 		return false
 	})
